@@ -1,10 +1,89 @@
 import StepupModel.Proto
-/-! Driver requests of C14 (`c14 <op> ...`). -/
-open StepupModel StepupModel.Proto
+import StepupModel.P.Watch
+/-! Driver requests of C14 (`c14 <op> ...`).
+
+* `c14 fold <files> <globMatches> <globAccepted> <events>`: `Watcher.record_change` folded over the
+  events on a workflow with the attached file rows `hexlabel:STATE,...`, the recorded glob matches and
+  the paths some attached regex accepts; events `U|D|P:hexpath:duringBuild,...`.  Answer: the two
+  sets after every event, `u=<sorted hex list>|d=<sorted hex list>` joined by `;`.
+* `c14 applied <nodes> <disk> <updated> <deleted> <paths>`: the hash results the watcher applies, the
+  pruned `updated` set, and the results a restart applies (`hexpath:attached:STATE:hash` nodes,
+  `hexpath:hash` disk, `~` = unknown / absent).
+-/
+open StepupModel StepupModel.Proto StepupModel.K
 
 namespace StepupModel.Drv.C14
+open StepupModel.P.Watch StepupModel.P.Like
+
+def parseFileState : String → Option FileState
+  | "UNDECLARED" => some .undeclared | "UNCONFIRMED" => some .unconfirmed | "MISSING" => some .missing
+  | "CONFIRMED" => some .confirmed | "PLANNED" => some .planned | "BUILT" => some .built
+  | "OUTDATED" => some .outdated | "VOLATILE" => some .volatile | _ => none
+
+def parseBool : String → Option Bool
+  | "0" => some false | "1" => some true | _ => none
+
+def items (tok : String) : List String := if tok = "." then [] else tok.splitOn ","
+
+def parseFile (tok : String) : Option (Str × FileState) :=
+  match tok.splitOn ":" with
+  | [l, s] => do pure (cps (← unhex l), ← parseFileState s)
+  | _ => none
+
+def parseEvent (tok : String) : Option (Event Str) :=
+  match tok.splitOn ":" with
+  | [c, p, d] => do
+    let ch ← match c with
+      | "U" => some Change.updated | "D" => some Change.deleted | "P" => some Change.deletedParent | _ => none
+    pure { change := ch, path := cps (← unhex p), duringBuild := ← parseBool d }
+  | _ => none
+
+def sortStrs (l : List Str) : List Str := (l.toArray.qsort (fun a b => ltB a b)).toList
+
+def setsStr (s : Sets Str) : String :=
+  s!"u={hexList ((sortStrs s.updated).map ofCps)}|d={hexList ((sortStrs s.deleted).map ofCps)}"
+
+def parseHash (tok : String) : Option (Option Nat) :=
+  if tok = "~" then some none else tok.toNat?.map some
+
+def parseNode (tok : String) : Option (Str × FileRec) :=
+  match tok.splitOn ":" with
+  | [p, a, s, h] => do
+    pure (cps (← unhex p), { attached := ← parseBool a, state := ← parseFileState s, hash := ← parseHash h })
+  | _ => none
+
+def parseDisk (tok : String) : Option (Str × Option Nat) :=
+  match tok.splitOn ":" with
+  | [p, h] => do pure (cps (← unhex p), ← parseHash h)
+  | _ => none
+
+def causeStr : Cause → String
+  | .external => "EXTERNAL" | .confirmed => "CONFIRMED" | .succeeded => "SUCCEEDED" | .failed => "FAILED"
+
+def appliedStr (l : List (Applied Str)) : String :=
+  let l := (l.toArray.qsort (fun a b => ltB a.path b.path)).toList
+  if l.isEmpty then "." else
+    ",".intercalate (l.map fun x => s!"{hex (ofCps x.path)}:{causeStr x.cause}:{match x.newHash with | some h => toString h | none => "~"}")
 
 def handle : List String → Option String
+  | ["fold", files, gm, ga, evs] => do
+    let files ← (items files).mapM parseFile
+    let gm := (← unhexList gm).map cps
+    let ga := (← unhexList ga).map cps
+    let t : Tables := { files := files, globMatches := gm, globAccepts := fun p => ga.contains p }
+    let evs ← (items evs).mapM parseEvent
+    let (_, outs) := evs.foldl (fun (acc : Sets Str × List String) e =>
+      let s := recordChange t.view acc.1 e
+      (s, acc.2 ++ [setsStr s])) ({}, [])
+    pure (if outs.isEmpty then "-" else ";".intercalate outs)
+  | ["applied", nodes, disk, upd, del, paths] => do
+    let nodes ← (items nodes).mapM parseNode
+    let disk ← (items disk).mapM parseDisk
+    let nodeF : Str → Option FileRec := fun p => (nodes.find? (·.1 = p)).map (·.2)
+    let diskF : Str → Option Nat := fun p => ((disk.find? (·.1 = p)).map (·.2)).join
+    let s : Sets Str := { updated := (← unhexList upd).map cps, deleted := (← unhexList del).map cps }
+    let paths := (← unhexList paths).map cps
+    pure s!"watch={appliedStr (watchApplied nodeF diskF s)} pruned={hexList ((sortStrs (prunedUpdated nodeF diskF s)).map ofCps)} restart={appliedStr (restartApplied paths nodeF diskF)}"
   | _ => none
 
 end StepupModel.Drv.C14
